@@ -262,9 +262,12 @@ static void run_products(Ctx& ctx, const PF& pf, void* pc) {
   }
   // 2. concrete worst-case runs: every ell, three extremal families; measured <= bound and exact modulo q
   const uint64_t xw = pf.kind <= 2 ? 4 : 8, yw = pf.kind <= 2 ? 4 : pf.kind == 3 ? 8 : 16;
-  for (int fam = 0; fam < 5; ++fam) {
+  for (int famx = 0; famx < 10; ++famx) {
+    const int fam = famx % 5;
+    const bool same = famx >= 5;   // ONE array passed as both operands (x == y by pointer): the values are in range like any others
+    if (same && xw != yw) continue;
     static const char* fn[] = {"all-maximal", "alternating-max-min", "single-maximal", "high-halves-maximal", "low-halves-maximal"};
-    std::string id = sfmt("worstcase|%s|%s|ell=0..10000", pf.name, fn[fam]);
+    std::string id = sfmt("worstcase|%s|%s%s|ell=0..10000", pf.name, fn[fam], same ? "|one array passed as both operands" : "");
     if (!ctx.want(id)) continue;
     ctx.begin_case(id);
     GBuf X(L * xw * 8, 8), Y(L * yw * 8, 16), R(pf.nres * 32, 24);
@@ -277,11 +280,13 @@ static void run_products(Ctx& ctx, const PF& pf, void* pc) {
       }
     };
     fill(X, pf.kind == 0, fam); fill(Y, pf.kind == 0, fam == 2 ? 0 : fam);
+    if (same) memcpy(Y.p, X.p, X.bytes);
+    const void* ycall = same ? (const void*)X.p : (const void*)Y.p;
     uint64_t acc[4][4] = {{0}};
     const uint64_t* x = X.as<uint64_t>(); const uint64_t* yb = Y.as<uint64_t>(); const uint32_t* yc = Y.as<uint32_t>();
     bool bad = false;
     for (uint64_t ell = 0; ell <= L && !bad; ++ell) {
-      pf.f(pc, ell, R.p, X.p, Y.p);
+      pf.f(pc, ell, R.p, X.p, ycall);
       ProdEnv E = envelope_product(mk, pf.avx2, ell, pc);
       for (int s = 0; s < pf.nres && !bad; ++s) for (int k = 0; k < 4; ++k) {
         uint64_t g = R.as<uint64_t>()[4 * s + k];
@@ -363,6 +368,6 @@ int main(int argc, char** argv) {
                      "operand ranges: any 64-bit lane (NTT, b layout), any 32-bit value (a, c layouts), ell <= 10000"};
   return ctx.finish("model_checking",
                     "abstract states = (transform, n, prime, stage) for n = 2^0..2^16 both directions, plus (product kernel, ref/avx2, ell, prime) for every ell in 0..10000; each side condition (no negative lazy subtraction, "
-                    "no 64-bit overflow, 32-bit multiplier operands) is an invariant; real runs: 6 extremal lane patterns per (n, direction) traced through interposed stage calls, products run for every ell on 5 extremal families",
+                    "no 64-bit overflow, 32-bit multiplier operands) is an invariant; real runs: 6 extremal lane patterns per (n, direction) traced through interposed stage calls, products run for every ell on 5 extremal families, with two arrays and with one array passed as both operands",
                     true, ex);
 }
